@@ -122,3 +122,57 @@ def make_gap(gaps: list[str], default: str = " "):
         return next(it, default)
 
     return gap
+
+
+# ---------------------------------------------------------------------------------------------
+# seeded constructive builders.  Deep recursive structures (expression trees, program IR) are
+# built by plain functions over a random.Random whose seed is the only thing Hypothesis draws:
+# st.recursive costs ~100 ms per program-sized example, this costs ~1 ms.  Every case is still a
+# pure function of the drawn integer (hence of VERIF_SEED); shrinking is done structurally on the
+# JSON case by vlib/runner.shrink, not by Hypothesis.
+
+import random as _random
+
+
+def seeded(builder, *args, **kwargs):
+    """strategy: one 64-bit integer -> builder(random.Random(seed), *args)"""
+    return st.integers(0, (1 << 64) - 1).map(lambda s: builder(_random.Random(s), *args, **kwargs))
+
+
+def r_literal(rng, lit_max: int = 1 << 33):
+    k = rng.random()
+    if k < 0.4:
+        v = rng.choice([b for b in BOUNDARY if b <= lit_max])
+    elif k < 0.7:
+        v = rng.randint(0, 300)
+    else:
+        v = rng.randint(0, lit_max)
+    return ["lit", v, rng.choice(["d", "x", "x", "X", "b"])]
+
+
+def r_expr(rng, names=None, max_leaves: int = 8, ops=None, unary=True, inv=True, parens=True, lit_max: int = 1 << 33):
+    ops = ops or X.BINOPS
+
+    def leaf():
+        if names and rng.random() < 0.35:
+            return ["id", rng.choice(names)]
+        return r_literal(rng, lit_max)
+
+    def build(budget: int):
+        if budget <= 1:
+            return leaf()
+        k = rng.random()
+        if k < 0.62:
+            left = rng.randint(1, budget - 1)
+            op = rng.choice(ops)
+            if op in ("<<", ">>") and rng.random() < 0.6:
+                return ["bin", op, build(budget - 1), ["lit", rng.randint(0, 12), rng.choice(["d", "x", "b"])]]
+            return ["bin", op, build(left), build(budget - left)]
+        if k < 0.78 and unary:
+            return ["neg" if (not inv or rng.random() < 0.5) else "inv", build(budget)] if budget > 1 else leaf()
+        if k < 0.9 and parens:
+            return ["par", build(budget)]
+        return ["bin", rng.choice(ops), build(max(1, budget // 2)), build(max(1, budget - budget // 2))]
+
+    # (the unary / parenthesis branches do not consume budget; their nesting is geometric)
+    return build(rng.choice([1, 2, 2, 3, 4, max_leaves]))
